@@ -654,6 +654,45 @@ MUTANTS = {
           "  def max(self):\n"
           "    \"\"\"Get the maximum value that quantized_relu_po2 can "
           "represent.\"\"\"\n")]),
+    # --- round 14 ---------------------------------------------------------
+    # ternary's own maximum under channels_first taken per index of the LAST
+    # axis (every other statistic stays per index of axis 0)
+    "m117_ternary_channels_first_axes": dict(expect=["C04"], edits=[
+        E("qkeras/quantizers.py",
+          "      elif K.image_data_format() == \"channels_last\":\n"
+          "        axis = list(range(len_axis - 1))\n"
+          "      else:\n"
+          "        axis = list(range(1, len_axis))\n",
+          "      else:\n"
+          "        axis = list(range(len_axis - 1))\n", matches=2, which=0)]),
+    "m118_dense_output_shape_second_axis": dict(expect=["C12"], edits=[
+        E("qkeras/qlayers.py",
+          "    output_shape[-1] = self.units\n",
+          "    output_shape[1] = self.units\n")]),
+    "m119_mask_reloaded_as_booleans": dict(expect=["C13"], edits=[
+        E("qkeras/qconvolutional.py",
+          "      mask = np.array(mask)\n",
+          "      mask = np.array(mask, dtype=bool)\n")]),
+    "m120_converted_01_binary_stays_signed": dict(expect=["C16"], edits=[
+        E(QO + "quantizer_impl.py",
+          "    if quantizer.use_01:\n"
+          "      self.mode = 4\n"
+          "      self.is_signed = 0\n",
+          "    if quantizer.use_01:\n"
+          "      self.mode = 4\n"
+          "      self.is_signed = 1\n")]),
+    "m121_fp16_multiplier_priced_as_fp32": dict(expect=["C19"], edits=[
+        E("qkeras/qtools/qenergy/qenergy.py",
+          "        \"mul\": lambda x: max(cfg.fp16_mul(x), 0)\n",
+          "        \"mul\": lambda x: max(cfg.fp32_mul(x), 0)\n")]),
+    "m122_trials_scale_the_reference_model": dict(expect=["C20"], edits=[
+        E("qkeras/autoqkeras/autoqkeras_internal.py",
+          "    model = clone_model(self.model, self.custom_objects)\n",
+          "    model = self.model\n")]),
+    "m123_hswish_printer_truncates_bound": dict(expect=["C10"], edits=[
+        E("qkeras/quantizers.py",
+          "        \"relu_upper_bound=\" + str(self.relu_upper_bound),\n",
+          "        \"relu_upper_bound=\" + str(int(self.relu_upper_bound)),\n")]),
     "m95_po2_operand_converted_in_place": dict(expect=["C17"], edits=[
         E(QO + "adder_factory.py",
           "    local_quantizer_1 = copy.deepcopy(quantizer_1)\n"
@@ -1035,6 +1074,41 @@ BENIGN = {
                                       edits=os.path.join(
         os.path.dirname(os.path.abspath(__file__)), "benign_patches",
         "b45_po2_max_value_setters.diff")),
+    # --- round 14 ---------------------------------------------------------
+    "b55_channels_first_axes_by_slicing": dict(props=["C04", "C05"], edits=[
+        E("qkeras/quantizers.py",
+          "    else:\n      axis = tf.range(1, len_axis)\n  return axis\n",
+          "    else:\n      axis = tf.range(len_axis)[1:]\n  return axis\n")]),
+    "b56_dense_output_shape_concatenated": dict(props=["C12"], edits=[
+        E("qkeras/qlayers.py",
+          "    output_shape = list(input_shape)\n"
+          "    output_shape[-1] = self.units\n"
+          "    return tuple(output_shape)\n",
+          "    return tuple(input_shape[:-1]) + (self.units,)\n")]),
+    "b57_mask_reloaded_as_float32": dict(props=["C13"], edits=[
+        E("qkeras/qconvolutional.py",
+          "      mask = np.array(mask)\n",
+          "      mask = np.array(mask, dtype=np.float32)\n")]),
+    # the benign twin of C19-seed14: the loop-built entries bind the family
+    # name as a default argument
+    "b58_fp_cost_entries_in_a_loop": dict(props=["C19"], edits=os.path.join(
+        os.path.dirname(os.path.abspath(__file__)), "benign_patches",
+        "b58_fp_cost_entries_in_a_loop.diff")),
+    "b59_clone_with_keyword": dict(props=["C20"], edits=[
+        E("qkeras/autoqkeras/autoqkeras_internal.py",
+          "    model = clone_model(self.model, self.custom_objects)\n",
+          "    model = clone_model(self.model,\n"
+          "                        custom_objects=self.custom_objects)\n")]),
+    # the benign twin of C06-seed14: a fast path that keeps the gradient
+    "b60_relu_full_noise_fast_path": dict(props=["C06", "C01", "C02"], edits=[
+        E("qkeras/quantizers.py",
+          "    if self.use_ste:\n"
+          "      return x_u + tf.stop_gradient(self.qnoise_factor * (-x_u + xq))\n",
+          "    if self.use_ste:\n"
+          "      if isinstance(self.qnoise_factor, float) and \\\n"
+          "          self.qnoise_factor == 1.0:\n"
+          "        return x_u + tf.stop_gradient(xq - x_u)\n"
+          "      return x_u + tf.stop_gradient(self.qnoise_factor * (-x_u + xq))\n")]),
     # --- round 13 ---------------------------------------------------------
     "b51_tfoplambda_test_reordered": dict(props=["C15"], edits=[
         E("qkeras/utils.py",
